@@ -1,6 +1,17 @@
 /-
   AVX-512 lane kernels (Gen/Avx512.lean, regenerated from goldilocks_base_field_avx512.hpp) on `Nat`.
   Helper lemmas only; property statements are in Props/C11.lean.
+
+  Proof scheme = the one of `Avx2Nat.lean` / `Avx2Mul.lean` (chosen so that behaviour-preserving rewrites of the C++
+  do not disturb it):
+  * `K_get`  : `(K a b).get i = L8.bin K (a.get i) (b.get i)` — both sides are normalised by the closed simp set
+               `lane_get`, which here also reads the masked operations at one lane: `mask_add/sub_epi64` under any
+               `vpcmpuq` predicate become the folded lane functions `Lane.ultSel` / `Lane.eqSel` (`cmplt(a,b)` and
+               `cmpgt(b,a)`, `≤` / `≥` with exchanged branches give the same term).  No lane expression is written down.
+  * `K_lane` : the lane function is moved to `Nat` by `lane_nat` and the arithmetic fact is closed by `omega` per
+               case of the compare (masked subtract of `P` / masked add of `2^64 - P` are the same number there).
+  * callers (`add_avx512`, `sub_avx512`, the reductions, `mult`, `square`) use the lane specifications of their
+    callees whether the callee is called or its body is repeated, with either operand order of the exact products.
 -/
 import GoldilocksVerif.Gen.Avx512
 import GoldilocksVerif.Lemmas.Avx2Mul
@@ -27,19 +38,83 @@ theorem mask8_getLsbD (p : BitVec 64 → BitVec 64 → Bool) (a b : V8) (i : Fin
 
 theorem k255_getLsbD (i : Fin 8) : (255#8 : BitVec 8).getLsbD i.val = true := by revert i; decide
 
-theorem ucmp_gt_getLsbD (a b : V8) (i : Fin 8) :
-    (ucmpq512_mask a b 6 255#8).getLsbD i.val = decide (b.get i < a.get i) := by
-  have h : ucmpq512_mask a b 6 255#8 = mask8 (fun x y => decide (y < x)) a b &&& 255#8 := rfl
-  rw [h, BitVec.getLsbD_and, k255_getLsbD, Bool.and_true, mask8_getLsbD]
-theorem ucmp_ge_getLsbD (a b : V8) (i : Fin 8) :
-    (ucmpq512_mask a b 5 255#8).getLsbD i.val = decide (b.get i ≤ a.get i) := by
-  have h : ucmpq512_mask a b 5 255#8 = mask8 (fun x y => decide (y ≤ x)) a b &&& 255#8 := rfl
-  rw [h, BitVec.getLsbD_and, k255_getLsbD, Bool.and_true, mask8_getLsbD]
+/-! masked operations read at one lane: `sel` of the mask bit; every compare predicate under a `sel` becomes the
+  folded lane function `Lane.ultSel` / `Lane.eqSel` (`≤` by exchanging the branches) -/
 
 theorem get_mask_add (src : V8) (k : BitVec 8) (a b : V8) (i : Fin 8) :
-    (mask_add_epi64 src k a b).get i = if k.getLsbD i.val then a.get i + b.get i else src.get i := by
+    (mask_add_epi64 src k a b).get i = sel k i.val (a.get i + b.get i) (src.get i) := by
   match i with
   | 0 => rfl | 1 => rfl | 2 => rfl | 3 => rfl | 4 => rfl | 5 => rfl | 6 => rfl | 7 => rfl
+theorem get_mask_sub (src : V8) (k : BitVec 8) (a b : V8) (i : Fin 8) :
+    (mask_sub_epi64 src k a b).get i = sel k i.val (a.get i - b.get i) (src.get i) := by
+  match i with
+  | 0 => rfl | 1 => rfl | 2 => rfl | 3 => rfl | 4 => rfl | 5 => rfl | 6 => rfl | 7 => rfl
+
+theorem sel_mask8 (p : BitVec 64 → BitVec 64 → Bool) (a b : V8) (i : Fin 8) (u v : BitVec 64) :
+    sel (mask8 p a b) i.val u v = if p (a.get i) (b.get i) then u else v := by
+  unfold sel; rw [mask8_getLsbD]
+theorem sel_mask8_255 (p : BitVec 64 → BitVec 64 → Bool) (a b : V8) (i : Fin 8) (u v : BitVec 64) :
+    sel (mask8 p a b &&& 255#8) i.val u v = if p (a.get i) (b.get i) then u else v := by
+  unfold sel; rw [BitVec.getLsbD_and, k255_getLsbD, Bool.and_true, mask8_getLsbD]
+
+theorem ite_lt (x y u v : BitVec 64) : (if decide (x < y) then u else v) = Lane.ultSel x y u v := by
+  unfold Lane.ultSel; by_cases h : x < y <;> simp [h]
+theorem ite_le (x y u v : BitVec 64) : (if decide (x ≤ y) then u else v) = Lane.ultSel y x v u := by
+  unfold Lane.ultSel
+  by_cases h : y < x
+  · have : ¬ x ≤ y := by rw [BitVec.le_def]; rw [BitVec.lt_def] at h; omega
+    simp [h, this]
+  · have : x ≤ y := by rw [BitVec.le_def]; rw [BitVec.lt_def] at h; omega
+    simp [h, this]
+theorem ite_beq (x y u v : BitVec 64) : (if (x == y) then u else v) = Lane.eqSel x y u v := by
+  unfold Lane.eqSel; by_cases h : x = y <;> simp [h]
+theorem ite_bne (x y u v : BitVec 64) : (if (x != y) then u else v) = Lane.eqSel x y v u := by
+  unfold Lane.eqSel; by_cases h : x = y <;> simp [h]
+
+/-- `vpcmpuq` with immediate 1 (`<`), 2 (`≤`), 5 (`≥`), 6 (`>`), 0 (`=`), 4 (`≠`) and a full write mask -/
+theorem sel_ucmp_lt (a b : V8) (i : Fin 8) (u v : BitVec 64) :
+    sel (ucmpq512_mask a b 1 255#8) i.val u v = Lane.ultSel (a.get i) (b.get i) u v := by
+  have h : ucmpq512_mask a b 1 255#8 = mask8 (fun x y => decide (x < y)) a b &&& 255#8 := rfl
+  rw [h, sel_mask8_255, ite_lt]
+theorem sel_ucmp_le (a b : V8) (i : Fin 8) (u v : BitVec 64) :
+    sel (ucmpq512_mask a b 2 255#8) i.val u v = Lane.ultSel (b.get i) (a.get i) v u := by
+  have h : ucmpq512_mask a b 2 255#8 = mask8 (fun x y => decide (x ≤ y)) a b &&& 255#8 := rfl
+  rw [h, sel_mask8_255, ite_le]
+theorem sel_ucmp_ge (a b : V8) (i : Fin 8) (u v : BitVec 64) :
+    sel (ucmpq512_mask a b 5 255#8) i.val u v = Lane.ultSel (a.get i) (b.get i) v u := by
+  have h : ucmpq512_mask a b 5 255#8 = mask8 (fun x y => decide (y ≤ x)) a b &&& 255#8 := rfl
+  rw [h, sel_mask8_255, ite_le]
+theorem sel_ucmp_gt (a b : V8) (i : Fin 8) (u v : BitVec 64) :
+    sel (ucmpq512_mask a b 6 255#8) i.val u v = Lane.ultSel (b.get i) (a.get i) u v := by
+  have h : ucmpq512_mask a b 6 255#8 = mask8 (fun x y => decide (y < x)) a b &&& 255#8 := rfl
+  rw [h, sel_mask8_255, ite_lt]
+theorem sel_ucmp_eq (a b : V8) (i : Fin 8) (u v : BitVec 64) :
+    sel (ucmpq512_mask a b 0 255#8) i.val u v = Lane.eqSel (a.get i) (b.get i) u v := by
+  have h : ucmpq512_mask a b 0 255#8 = mask8 (fun x y => x == y) a b &&& 255#8 := rfl
+  rw [h, sel_mask8_255, ite_beq]
+theorem sel_ucmp_ne (a b : V8) (i : Fin 8) (u v : BitVec 64) :
+    sel (ucmpq512_mask a b 4 255#8) i.val u v = Lane.eqSel (a.get i) (b.get i) v u := by
+  have h : ucmpq512_mask a b 4 255#8 = mask8 (fun x y => x != y) a b &&& 255#8 := rfl
+  rw [h, sel_mask8_255, ite_bne]
+/-- the by-name compare intrinsics -/
+theorem sel_cmplt (a b : V8) (i : Fin 8) (u v : BitVec 64) :
+    sel (cmplt_epu64_mask a b) i.val u v = Lane.ultSel (a.get i) (b.get i) u v := by
+  unfold cmplt_epu64_mask; rw [sel_mask8, ite_lt]
+theorem sel_cmple (a b : V8) (i : Fin 8) (u v : BitVec 64) :
+    sel (cmple_epu64_mask a b) i.val u v = Lane.ultSel (b.get i) (a.get i) v u := by
+  unfold cmple_epu64_mask; rw [sel_mask8, ite_le]
+theorem sel_cmpge (a b : V8) (i : Fin 8) (u v : BitVec 64) :
+    sel (cmpge_epu64_mask a b) i.val u v = Lane.ultSel (a.get i) (b.get i) v u := by
+  unfold cmpge_epu64_mask; rw [sel_mask8, ite_le]
+theorem sel_cmpgt (a b : V8) (i : Fin 8) (u v : BitVec 64) :
+    sel (cmpgt_epu64_mask a b) i.val u v = Lane.ultSel (b.get i) (a.get i) u v := by
+  unfold cmpgt_epu64_mask; rw [sel_mask8, ite_lt]
+theorem sel_cmpeq (a b : V8) (i : Fin 8) (u v : BitVec 64) :
+    sel (cmpeq_epu64_mask a b) i.val u v = Lane.eqSel (a.get i) (b.get i) u v := by
+  unfold cmpeq_epu64_mask; rw [sel_mask8, ite_beq]
+theorem sel_cmpneq (a b : V8) (i : Fin 8) (u v : BitVec 64) :
+    sel (cmpneq_epu64_mask a b) i.val u v = Lane.eqSel (a.get i) (b.get i) v u := by
+  unfold cmpneq_epu64_mask; rw [sel_mask8, ite_bne]
 
 theorem get_blend_aaaa (a b : V8) (i : Fin 8) :
     (mask_blend_epi32 43690 a b).get i = Lane.blend32 2 (a.get i) (b.get i) := by
@@ -48,122 +123,150 @@ theorem get_blend_aaaa (a b : V8) (i : Fin 8) :
 @[simp] theorem get_set_same (c : BitVec 64) (i : Fin 8) : (set_epi64 c c c c c c c c).get i = c := by
   match i with
   | 0 => rfl | 1 => rfl | 2 => rfl | 3 => rfl | 4 => rfl | 5 => rfl | 6 => rfl | 7 => rfl
+theorem get_set1 (c : BitVec 64) (i : Fin 8) : (set1_epi64 c).get i = c := by
+  match i with
+  | 0 => rfl | 1 => rfl | 2 => rfl | 3 => rfl | 4 => rfl | 5 => rfl | 6 => rfl | 7 => rfl
+theorem get_set4_same (c : BitVec 64) (i : Fin 8) : (set4_epi64 c c c c).get i = c := by
+  match i with
+  | 0 => rfl | 1 => rfl | 2 => rfl | 3 => rfl | 4 => rfl | 5 => rfl | 6 => rfl | 7 => rfl
 
 end GoldilocksVerif.Avx512
 
 namespace GoldilocksVerif
 open Gen.Avx512 Gen.VecConsts Lane Avx512
 
+-- the lane-wise intrinsics of `Isa/Avx512.lean`, the masked operations / compares read at one lane and the
+-- register constants join the closed `lane_get` set
+attribute [lane_get] Avx512.add_epi64 Avx512.sub_epi64 Avx512.and_si512 Avx512.xor_si512 Avx512.or_si512
+  Avx512.andnot_si512 Avx512.srli_epi64 Avx512.slli_epi64 Avx512.mul_epu32 Avx512.movehdup_ps Avx512.moveldup_ps
+  V8.get_map V8.get_map2 V8.get_splat Avx512.get_set_same Avx512.get_set1 Avx512.get_set4_same Avx512.get_blend_aaaa
+  Avx512.get_mask_add Avx512.get_mask_sub Avx512.sel_ucmp_lt Avx512.sel_ucmp_le Avx512.sel_ucmp_ge Avx512.sel_ucmp_gt
+  Avx512.sel_ucmp_eq Avx512.sel_ucmp_ne Avx512.sel_cmplt Avx512.sel_cmple Avx512.sel_cmpge Avx512.sel_cmpgt
+  Avx512.sel_cmpeq Avx512.sel_cmpneq g_P8 g_P8_n g_sqmask8
+
 namespace L8
 def un (f : V8 → V8) (x : BitVec 64) : BitVec 64 := (f (V8.splat x)).get 0
 def bin (f : V8 → V8 → V8) (x y : BitVec 64) : BitVec 64 := (f (V8.splat x) (V8.splat y)).get 0
 end L8
 
-/-! #### lanewise-ness and lane expressions -/
+/-! #### lanewise-ness (tie to the generated definitions) and the lane functions on `Nat`
+
+  Same scheme as `Avx2Nat.lean`: `K_get` normalises both sides by the closed set `lane_get` (no lane expression is
+  written down: local names, the order of independent statements, `cmplt(a,b)` / `cmpgt(b,a)`, masked subtract of
+  `P` / masked add of `2^64 - P`, calling `add_avx512_b_c` or repeating its body do not matter); `K_lane` moves the
+  lane function to `Nat` by `lane_nat` and closes the arithmetic by `omega` per case of the compare. -/
 
 theorem canon512_get (a : V8) (i : Fin 8) :
-    (toCanonical_avx512 a).get i =
-      if decide (18446744069414584321#64 ≤ a.get i) then a.get i + 4294967295#64 else a.get i := by
-  simp only [toCanonical_avx512, get_mask_add, ucmp_ge_getLsbD, g_P8, g_P8_n, get_set_same]
+    (toCanonical_avx512 a).get i = L8.un toCanonical_avx512 (a.get i) := by
+  unfold L8.un
+  simp only [toCanonical_avx512, lane_get]
 
 theorem add512_b_c_get (a b : V8) (i : Fin 8) :
-    (add_avx512_b_c a b).get i =
-      if decide (a.get i + b.get i < a.get i) then a.get i + b.get i + 4294967295#64 else a.get i + b.get i := by
-  simp only [add_avx512_b_c, get_mask_add, ucmp_gt_getLsbD, Avx512.add_epi64, V8.get_map2, g_P8_n, get_set_same]
+    (add_avx512_b_c a b).get i = L8.bin add_avx512_b_c (a.get i) (b.get i) := by
+  unfold L8.bin
+  simp only [add_avx512_b_c, lane_get]
 
 theorem sub512_b_c_get (a b : V8) (i : Fin 8) :
-    (sub_avx512_b_c a b).get i =
-      if decide (a.get i < b.get i) then a.get i - b.get i + 18446744069414584321#64 else a.get i - b.get i := by
-  simp only [sub_avx512_b_c, get_mask_add, ucmp_gt_getLsbD, Avx512.sub_epi64, V8.get_map2, g_P8, get_set_same]
+    (sub_avx512_b_c a b).get i = L8.bin sub_avx512_b_c (a.get i) (b.get i) := by
+  unfold L8.bin
+  simp only [sub_avx512_b_c, lane_get]
 
-theorem lane_canon (x : BitVec 64) :
-    (if decide (18446744069414584321#64 ≤ x) then x + 4294967295#64 else x).toNat = x.toNat % P := by
+theorem add512_get (a b : V8) (i : Fin 8) :
+    (add_avx512__wWW a b).get i = L8.bin add_avx512__wWW (a.get i) (b.get i) := by
+  unfold L8.bin
+  simp only [add_avx512__wWW, canon512_get, add512_b_c_get, lane_get]
+
+theorem sub512_get (a b : V8) (i : Fin 8) :
+    (sub_avx512__wWW a b).get i = L8.bin sub_avx512__wWW (a.get i) (b.get i) := by
+  unfold L8.bin
+  simp only [sub_avx512__wWW, canon512_get, sub512_b_c_get, lane_get]
+
+theorem canon512_lane (x : BitVec 64) : (L8.un toCanonical_avx512 x).toNat = x.toNat % P := by
+  unfold L8.un
+  simp only [toCanonical_avx512, lane_get, lane_nat, P]
+  simp only [ltN_def]
   have hx := x.isLt
-  have hP : (18446744069414584321#64 : BitVec 64).toNat = 18446744069414584321 := by decide
-  by_cases h : 18446744069414584321#64 ≤ x
-  · rw [if_pos (by simpa using h), BitVec.toNat_add]
-    have h' : 18446744069414584321 ≤ x.toNat := by rw [← hP]; exact h
-    have e : (4294967295#64 : BitVec 64).toNat = 4294967295 := by decide
-    rw [e]; unfold P; omega
-  · rw [if_neg (by simpa using h)]
-    have h' : ¬ 18446744069414584321 ≤ x.toNat := by rw [← hP]; exact h
-    unfold P; omega
-
-theorem lane_add_bc (x y : BitVec 64) (hb : x.toNat + y.toNat < 18446744073709551616 + P) :
-    (if decide (x + y < x) then x + y + 4294967295#64 else x + y).toNat % P = (x.toNat + y.toNat) % P := by
-  have hx := x.isLt
-  have hy := y.isLt
-  have e : (4294967295#64 : BitVec 64).toNat = 4294967295 := by decide
-  by_cases h : x + y < x
-  · rw [if_pos (by simpa using h), BitVec.toNat_add, BitVec.toNat_add, e]
-    have h' : (x + y).toNat < x.toNat := h
-    rw [BitVec.toNat_add] at h'
-    unfold P at *; omega
-  · rw [if_neg (by simpa using h), BitVec.toNat_add]
-    have h' : ¬ (x + y).toNat < x.toNat := h
-    rw [BitVec.toNat_add] at h'
-    unfold P at *; omega
-
-theorem lane_sub_bc (x y : BitVec 64) (hb : y.toNat < P) :
-    ((if decide (x < y) then x - y + 18446744069414584321#64 else x - y).toNat + y.toNat) % P = x.toNat % P := by
-  have hx := x.isLt
-  have hP : (18446744069414584321#64 : BitVec 64).toNat = 18446744069414584321 := by decide
-  by_cases h : x < y
-  · rw [if_pos (by simpa using h), BitVec.toNat_add, BitVec.toNat_sub, hP]
-    have h' : x.toNat < y.toNat := h
-    unfold P at *; omega
-  · rw [if_neg (by simpa using h), BitVec.toNat_sub]
-    have h' : ¬ x.toNat < y.toNat := h
-    unfold P at *; omega
-
-theorem canon512_spec (a : V8) (i : Fin 8) : ((toCanonical_avx512 a).get i).toNat = (a.get i).toNat % P := by
-  rw [canon512_get]; exact lane_canon _
+  split <;> omega
 
 /-- add_avx512_b_c : second operand canonical (the proof needs only a + b < 2^64 + p) -/
+theorem add512_b_c_lane (x y : BitVec 64) (hb : x.toNat + y.toNat < 18446744073709551616 + P) :
+    (L8.bin add_avx512_b_c x y).toNat % P = (x.toNat + y.toNat) % P := by
+  unfold L8.bin
+  simp only [add_avx512_b_c, lane_get, lane_nat, P] at *
+  simp only [ltN_def]
+  have hx := x.isLt
+  have hy := y.isLt
+  split <;> omega
+
+theorem sub512_b_c_lane (x y : BitVec 64) (hb : y.toNat < P) :
+    ((L8.bin sub_avx512_b_c x y).toNat + y.toNat) % P = x.toNat % P := by
+  unfold L8.bin
+  simp only [sub_avx512_b_c, lane_get, lane_nat, P] at *
+  simp only [ltN_def]
+  have hx := x.isLt
+  split <;> omega
+
+theorem canon512_spec (a : V8) (i : Fin 8) : ((toCanonical_avx512 a).get i).toNat = (a.get i).toNat % P := by
+  rw [canon512_get, canon512_lane]
+
 theorem add512_b_c_spec (a b : V8) (i : Fin 8) (hb : (a.get i).toNat + (b.get i).toNat < 18446744073709551616 + P) :
     ((add_avx512_b_c a b).get i).toNat % P = ((a.get i).toNat + (b.get i).toNat) % P := by
-  rw [add512_b_c_get]; exact lane_add_bc _ _ hb
+  rw [add512_b_c_get]; exact add512_b_c_lane _ _ hb
 
 theorem sub512_b_c_spec (a b : V8) (i : Fin 8) (hb : (b.get i).toNat < P) :
     (((sub_avx512_b_c a b).get i).toNat + (b.get i).toNat) % P = (a.get i).toNat % P := by
-  rw [sub512_b_c_get]; exact lane_sub_bc _ _ hb
+  rw [sub512_b_c_get]; exact sub512_b_c_lane _ _ hb
 
-theorem add512_get (a b : V8) (i : Fin 8) :
-    (add_avx512__wWW a b).get i = (add_avx512_b_c (toCanonical_avx512 a) b).get i := by
-  simp only [add_avx512__wWW, add_avx512_b_c]
+/-- add_avx512 : canonicalise the first operand, then the `_b_c` addition (called, or its body repeated) -/
+theorem add512_lane (x y : BitVec 64) : (L8.bin add_avx512__wWW x y).toNat % P = (x.toNat + y.toNat) % P := by
+  have hc := canon512_lane x
+  have hP : x.toNat % P < P := Nat.mod_lt _ (by decide)
+  have hy := y.isLt
+  unfold L8.bin
+  simp only [add_avx512__wWW, canon512_get, add512_b_c_get, lane_get]
+  generalize L8.un toCanonical_avx512 x = xc at *
+  first
+    | -- the `_b_c` kernel is called (the canonical operand in either position)
+      (rw [add512_b_c_lane _ _ (by omega)]
+       simp only [P] at *
+       omega)
+    | -- its body is repeated
+      (simp only [lane_nat]
+       simp only [ltN_def]
+       have hxc := xc.isLt
+       simp only [P] at *
+       split <;> omega)
 
-theorem add512_comm_get (a b : V8) (i : Fin 8) :
-    (add_avx512_b_c a b).get i = (add_avx512_b_c b a).get i ∨ True := Or.inr trivial
+theorem sub512_lane (x y : BitVec 64) : ((L8.bin sub_avx512__wWW x y).toNat + y.toNat) % P = x.toNat % P := by
+  have hc := canon512_lane y
+  have hP : y.toNat % P < P := Nat.mod_lt _ (by decide)
+  have hy := y.isLt
+  have hx := x.isLt
+  unfold L8.bin
+  simp only [sub_avx512__wWW, canon512_get, sub512_b_c_get, lane_get]
+  generalize L8.un toCanonical_avx512 y = yc at *
+  first
+    | (have h := sub512_b_c_lane x yc (by omega)
+       simp only [P] at *
+       omega)
+    | (simp only [lane_nat]
+       simp only [ltN_def]
+       have hyc := yc.isLt
+       simp only [P] at *
+       split <;> omega)
 
 theorem add512_spec (a b : V8) (i : Fin 8) :
     ((add_avx512__wWW a b).get i).toNat % P = ((a.get i).toNat + (b.get i).toNat) % P := by
-  rw [add512_get, add512_b_c_spec]
-  · rw [canon512_spec, Nat.mod_add_mod]
-  · rw [canon512_spec]
-    have := (b.get i).isLt
-    have := Nat.mod_lt (a.get i).toNat (show 0 < P by decide)
-    omega
-
-theorem sub512_get (a b : V8) (i : Fin 8) :
-    (sub_avx512__wWW a b).get i = (sub_avx512_b_c a (toCanonical_avx512 b)).get i := by
-  simp only [sub_avx512__wWW, sub_avx512_b_c]
+  rw [add512_get, add512_lane]
 
 theorem sub512_spec (a b : V8) (i : Fin 8) :
     (((sub_avx512__wWW a b).get i).toNat + (b.get i).toNat) % P = (a.get i).toNat % P := by
-  rw [sub512_get]
-  have h := sub512_b_c_spec a (toCanonical_avx512 b) i (by rw [canon512_spec]; exact Nat.mod_lt _ (by decide))
-  rw [canon512_spec, Nat.add_mod_mod] at h
-  exact h
+  rw [sub512_get, sub512_lane]
 
 /-! #### products -/
 
 def m128h (x y : BitVec 64) : BitVec 64 := ((mult_avx512_128 (V8.splat x) (V8.splat y)).1).get 0
 def m128l (x y : BitVec 64) : BitVec 64 := ((mult_avx512_128 (V8.splat x) (V8.splat y)).2).get 0
-
--- the lane-wise intrinsics of `Isa/Avx512.lean` and the register constants join the closed `lane_get` set
-attribute [lane_get] Avx512.add_epi64 Avx512.sub_epi64 Avx512.and_si512 Avx512.xor_si512 Avx512.or_si512
-  Avx512.andnot_si512 Avx512.srli_epi64 Avx512.slli_epi64 Avx512.mul_epu32 Avx512.movehdup_ps Avx512.moveldup_ps
-  V8.get_map V8.get_map2 V8.get_splat Avx512.get_set_same Avx512.get_blend_aaaa g_P8 g_P8_n g_sqmask8
 
 theorem mult512_128_get (a b : V8) (i : Fin 8) :
     (mult_avx512_128 a b).1.get i = m128h (a.get i) (b.get i) ∧
@@ -179,41 +282,54 @@ theorem m128_spec (x y : BitVec 64) :
   products_omega x, y
 
 theorem reduce512_128_get (h l : V8) (i : Fin 8) :
-    (reduce_avx512_128_64 h l).get i =
-      (add_avx512_b_c (sub_avx512_b_c l (Avx512.srli_epi64 h 32)) (Avx512.mul_epu32 h g_P8_n)).get i := by
-  simp only [reduce_avx512_128_64]
+    (reduce_avx512_128_64 h l).get i = L8.bin reduce_avx512_128_64 (h.get i) (l.get i) := by
+  unfold L8.bin
+  simp only [reduce_avx512_128_64, sub512_b_c_get, add512_b_c_get, lane_get]
 
-theorem reduce512_128_spec (h l : V8) (i : Fin 8) :
-    ((reduce_avx512_128_64 h l).get i).toNat % P = ((h.get i).toNat * 18446744073709551616 + (l.get i).toNat) % P := by
-  rw [reduce512_128_get]
-  have hh := (h.get i).isLt
-  have e1 : ((Avx512.srli_epi64 h 32).get i).toNat = (h.get i).toNat / 4294967296 := by
-    simp only [Avx512.srli_epi64, V8.get_map, ushr32_toNat]
-  have e2 : ((Avx512.mul_epu32 h g_P8_n).get i).toNat = (h.get i).toNat % 4294967296 * 4294967295 := by
-    simp only [Avx512.mul_epu32, V8.get_map2, g_P8_n, get_set_same, mul32_toNat]
-    have e : (4294967295#64 : BitVec 64).toNat % 4294967296 = 4294967295 := by decide
-    rw [e]
-  have b2 : (h.get i).toNat % 4294967296 * 4294967295 ≤ 18446744065119617025 :=
+/-- reduce_avx512_128_64 : for all 128-bit inputs (c_h, c_l) the result represents c_h·2^64 + c_l mod p -/
+theorem reduce512_128_lane (h l : BitVec 64) :
+    (L8.bin reduce_avx512_128_64 h l).toNat % P = (h.toNat * 18446744073709551616 + l.toNat) % P := by
+  -- the call structure: subtract the top 32 bits, add (low 32 bits of c_h)·(2^32-1); either factor order
+  have e : ∃ m, (m.toNat = h.toNat % 4294967296 * 4294967295) ∧ L8.bin reduce_avx512_128_64 h l =
+      L8.bin add_avx512_b_c (L8.bin sub_avx512_b_c l (h >>> 32)) m := by
+    first
+      | (refine ⟨mul32 h 4294967295#64, mul32_Pn_toNat h, ?_⟩
+         unfold L8.bin
+         simp only [reduce_avx512_128_64, sub512_b_c_get, add512_b_c_get, lane_get]
+         done)
+      | (refine ⟨mul32 4294967295#64 h, Pn_mul32_toNat h, ?_⟩
+         unfold L8.bin
+         simp only [reduce_avx512_128_64, sub512_b_c_get, add512_b_c_get, lane_get]
+         done)
+  obtain ⟨m, hm, e⟩ := e
+  rw [e]
+  have hh := h.isLt
+  have b2 : h.toNat % 4294967296 * 4294967295 ≤ 18446744065119617025 :=
     mul32_le _ _ (by omega) (by omega)
-  have s1 := sub512_b_c_spec l (Avx512.srli_epi64 h 32) i (by rw [e1]; unfold P; omega)
-  have s2 := add512_b_c_spec (sub_avx512_b_c l (Avx512.srli_epi64 h 32)) (Avx512.mul_epu32 h g_P8_n) i (by
-    rw [e2]
-    have := ((sub_avx512_b_c l (Avx512.srli_epi64 h 32)).get i).isLt
+  have e1 : (h >>> 32).toNat = h.toNat / 4294967296 := ushr32_toNat h
+  have s1 := sub512_b_c_lane l (h >>> 32) (by rw [e1]; unfold P; omega)
+  have s2 := add512_b_c_lane (L8.bin sub_avx512_b_c l (h >>> 32)) m (by
+    rw [hm]
+    have := (L8.bin sub_avx512_b_c l (h >>> 32)).isLt
     unfold P; omega)
   rw [e1] at s1
-  rw [e2] at s2
-  have key := reduce128_core _ ((h.get i).toNat / 4294967296) ((h.get i).toNat % 4294967296) (l.get i).toNat _ s1 s2
-  have e3 : (h.get i).toNat / 4294967296 * 4294967296 + (h.get i).toNat % 4294967296 = (h.get i).toNat := by omega
+  rw [hm] at s2
+  have key := reduce128_core _ (h.toNat / 4294967296) (h.toNat % 4294967296) l.toNat _ s1 s2
+  have e3 : h.toNat / 4294967296 * 4294967296 + h.toNat % 4294967296 = h.toNat := by omega
   rw [e3] at key
   exact key
 
+theorem reduce512_128_spec (h l : V8) (i : Fin 8) :
+    ((reduce_avx512_128_64 h l).get i).toNat % P = ((h.get i).toNat * 18446744073709551616 + (l.get i).toNat) % P := by
+  rw [reduce512_128_get, reduce512_128_lane]
+
 theorem mult512_get (a b : V8) (i : Fin 8) :
-    (mult_avx512 a b).get i = (reduce_avx512_128_64 (mult_avx512_128 a b).1 (mult_avx512_128 a b).2).get i := by
-  simp only [mult_avx512]
+    (mult_avx512 a b).get i = L8.bin reduce_avx512_128_64 (m128h (a.get i) (b.get i)) (m128l (a.get i) (b.get i)) := by
+  simp only [mult_avx512, reduce512_128_get, (mult512_128_get a b i).1, (mult512_128_get a b i).2]
 
 theorem mult512_spec (a b : V8) (i : Fin 8) :
     ((mult_avx512 a b).get i).toNat % P = ((a.get i).toNat * (b.get i).toNat) % P := by
-  rw [mult512_get, reduce512_128_spec, (mult512_128_get a b i).1, (mult512_128_get a b i).2, m128_spec]
+  rw [mult512_get, reduce512_128_lane, m128_spec]
 
 /-! #### 72-bit product, 96-bit reduction -/
 
@@ -234,29 +350,43 @@ theorem m72_spec (x y : BitVec 64) :
   products_omega x, y
 
 theorem reduce512_96_get (h l : V8) (i : Fin 8) :
-    (reduce_avx512_96_64 h l).get i = (add_avx512_b_c l (Avx512.mul_epu32 h g_P8_n)).get i := by
-  simp only [reduce_avx512_96_64]
+    (reduce_avx512_96_64 h l).get i = L8.bin reduce_avx512_96_64 (h.get i) (l.get i) := by
+  unfold L8.bin
+  simp only [reduce_avx512_96_64, add512_b_c_get, lane_get]
 
-theorem reduce512_96_spec (h l : V8) (i : Fin 8) :
-    ((reduce_avx512_96_64 h l).get i).toNat % P =
-      ((h.get i).toNat % 4294967296 * 18446744073709551616 + (l.get i).toNat) % P := by
-  rw [reduce512_96_get]
-  have e2 : ((Avx512.mul_epu32 h g_P8_n).get i).toNat = (h.get i).toNat % 4294967296 * 4294967295 := by
-    simp only [Avx512.mul_epu32, V8.get_map2, g_P8_n, get_set_same, mul32_toNat]
-    have e : (4294967295#64 : BitVec 64).toNat % 4294967296 = 4294967295 := by decide
-    rw [e]
-  have b2 : (h.get i).toNat % 4294967296 * 4294967295 ≤ 18446744065119617025 :=
+theorem reduce512_96_lane (hv lv : BitVec 64) :
+    (L8.bin reduce_avx512_96_64 hv lv).toNat % P = (hv.toNat % 4294967296 * 18446744073709551616 + lv.toNat) % P := by
+  have e : ∃ m, (m.toNat = hv.toNat % 4294967296 * 4294967295) ∧
+      L8.bin reduce_avx512_96_64 hv lv = L8.bin add_avx512_b_c lv m := by
+    first
+      | (refine ⟨mul32 hv 4294967295#64, mul32_Pn_toNat hv, ?_⟩
+         unfold L8.bin
+         simp only [reduce_avx512_96_64, add512_b_c_get, lane_get]
+         done)
+      | (refine ⟨mul32 4294967295#64 hv, Pn_mul32_toNat hv, ?_⟩
+         unfold L8.bin
+         simp only [reduce_avx512_96_64, add512_b_c_get, lane_get]
+         done)
+  obtain ⟨m, hm, e⟩ := e
+  have b2 : hv.toNat % 4294967296 * 4294967295 ≤ 18446744065119617025 :=
     mul32_le _ _ (by omega) (by omega)
-  rw [add512_b_c_spec _ _ _ (by rw [e2]; have := (l.get i).isLt; unfold P; omega), e2]
-  apply mod_cert _ _ ((h.get i).toNat % 4294967296) 0
+  rw [e, add512_b_c_lane _ _ (by rw [hm]; have := lv.isLt; unfold P; omega), hm]
+  apply mod_cert _ _ (hv.toNat % 4294967296) 0
   unfold P
   omega
 
+/-- reduce_avx512_96_64 : uses the low 32 bits of c_h only -/
+theorem reduce512_96_spec (h l : V8) (i : Fin 8) :
+    ((reduce_avx512_96_64 h l).get i).toNat % P =
+      ((h.get i).toNat % 4294967296 * 18446744073709551616 + (l.get i).toNat) % P := by
+  rw [reduce512_96_get, reduce512_96_lane]
+
 theorem mult512_8_spec (a b : V8) (i : Fin 8) (hb : (b.get i).toNat < 4294967296) :
     ((mult_avx512_8 a b).get i).toNat % P = ((a.get i).toNat * (b.get i).toNat) % P := by
+  have r := reduce512_96_spec (mult_avx512_72 a b).1 (mult_avx512_72 a b).2 i
   have e : (mult_avx512_8 a b).get i = (reduce_avx512_96_64 (mult_avx512_72 a b).1 (mult_avx512_72 a b).2).get i := by
     simp only [mult_avx512_8]
-  rw [e, reduce512_96_spec, (mult512_72_get a b i).1, (mult512_72_get a b i).2]
+  rw [e, r, (mult512_72_get a b i).1, (mult512_72_get a b i).2]
   obtain ⟨s1, s2⟩ := m72_spec (a.get i) (b.get i)
   have e2 : (m72h (a.get i) (b.get i)).toNat % 4294967296 = (m72h (a.get i) (b.get i)).toNat := by omega
   have e3 : (b.get i).toNat % 4294967296 = (b.get i).toNat := by omega
@@ -278,11 +408,12 @@ theorem s128_spec (x : BitVec 64) :
   simp only [square_avx512_128, lane_get, lane_nat]
   products_omega x, x
 
+theorem square512_get (a : V8) (i : Fin 8) :
+    (square_avx512 a).get i = L8.bin reduce_avx512_128_64 (s128h (a.get i)) (s128l (a.get i)) := by
+  simp only [square_avx512, reduce512_128_get, (square512_128_get a i).1, (square512_128_get a i).2]
+
 theorem square512_spec (a : V8) (i : Fin 8) :
     ((square_avx512 a).get i).toNat % P = ((a.get i).toNat * (a.get i).toNat) % P := by
-  have e : (square_avx512 a).get i =
-      (reduce_avx512_128_64 (square_avx512_128 a).1 (square_avx512_128 a).2).get i := by
-    simp only [square_avx512]
-  rw [e, reduce512_128_spec, (square512_128_get a i).1, (square512_128_get a i).2, s128_spec]
+  rw [square512_get, reduce512_128_lane, s128_spec]
 
 end GoldilocksVerif
